@@ -758,6 +758,10 @@ structure SlotGood (cfg : Cfg) (s : Slot) : Prop where
   /-- every update either re-files the record in this pair or leaves its sort attribute alone -/
   stable : ∀ (o : Rec) (rq : SetReq),
     refreshes cfg s (mergeRec cfg (some o) rq) = true ∨ attrEq s o (mergeRec cfg (some o) rq)
+  /-- a re-filing block of `SaveFunction` re-adds exactly the carriers -/
+  refile : ∀ r, refileGuard cfg s r = carries s r
+  /-- `PatchExpired` hands every selected treasure back to the expiration index -/
+  reindex : s = .expire → cfg.patchExpiredReindexesAll = true
 
 def PairOk (s : Slot) (store : List Rec) (p : Pair) : Prop :=
   p.init = true → ListOk s true store p.asc ∧ ListOk s false store p.desc
@@ -770,28 +774,27 @@ theorem invalidates_false_of_resort (cfg : Cfg) (ps ss : Slot) (h : incrSort cfg
   | expire => simp only [incrSort, invalidates] at h ⊢; cases hr : cfg.resortExpire <;> simp_all
   | value t => simp only [incrSort, invalidates] at h ⊢; cases hr : cfg.resortValue <;> simp_all
 
-theorem Pair.insert_init (cfg : Cfg) (ps ss : Slot) (r : Rec) (p : Pair) (hs : incrSort cfg ps = some ss) :
-    (p.insert cfg ps r).init = p.init := by
-  unfold Pair.insert
+theorem Pair.insert_init (cfg : Cfg) (ps ss : Slot) (r : Rec) (g : Bool) (p : Pair) (hs : incrSort cfg ps = some ss) :
+    (p.insertG cfg ps r g).init = p.init := by
+  unfold Pair.insertG
   simp only [invalidates_false_of_resort cfg ps ss hs, hs, Bool.false_eq_true, if_false]
   repeat' split
   all_goals rfl
 
 theorem Pair.insert_lists (cfg : Cfg) (ps ss : Slot) (r : Rec) (p : Pair)
-    (hi : p.init = true) (hg : addGuard cfg ps r = true) (hs : incrSort cfg ps = some ss) :
-    (p.insert cfg ps r).asc = sortBy ss true (addTo p.asc r) ∧
-    (p.insert cfg ps r).desc = sortBy ss false (addTo p.desc r) := by
-  unfold Pair.insert
-  simp only [hi, hg, Bool.not_true, Bool.false_eq_true, if_false, hs, invalidates_false_of_resort cfg ps ss hs]
+    (hi : p.init = true) (hs : incrSort cfg ps = some ss) :
+    (p.insertG cfg ps r true).asc = sortBy ss true (addTo p.asc r) ∧
+    (p.insertG cfg ps r true).desc = sortBy ss false (addTo p.desc r) := by
+  unfold Pair.insertG
+  simp only [hi, Bool.not_true, Bool.false_eq_true, if_false, hs, invalidates_false_of_resort cfg ps ss hs]
   repeat' split
   all_goals exact ⟨rfl, rfl⟩
 
-theorem Pair.insert_skip (cfg : Cfg) (ps : Slot) (r : Rec) (p : Pair)
-    (hg : addGuard cfg ps r = false) : p.insert cfg ps r = p := by
-  unfold Pair.insert
+theorem Pair.insert_skip (cfg : Cfg) (ps : Slot) (r : Rec) (p : Pair) : p.insertG cfg ps r false = p := by
+  unfold Pair.insertG
   split
   · rfl
-  · simp [hg]
+  · simp
 
 theorem Pair.erase_init (k : String) (p : Pair) : (p.erase k).init = p.init := by
   unfold Pair.erase; split <;> rfl
@@ -800,18 +803,25 @@ theorem Pair.erase_lists (k : String) (p : Pair) (hi : p.init = true) :
     (p.erase k).asc = eraseKey k p.asc ∧ (p.erase k).desc = eraseKey k p.desc := by
   unfold Pair.erase; simp [hi]
 
+theorem PairOk.insertG {cfg : Cfg} {s : Slot} (hg : SlotGood cfg s) {store : List Rec} {p : Pair}
+    (hp : PairOk s store p) (r : Rec) (hfresh : ∀ x ∈ store, x.key ≠ r.key) :
+    PairOk s (store ++ [r]) (p.insertG cfg s r (carries s r)) := by
+  intro hi
+  rw [Pair.insert_init cfg s s r _ p hg.resort] at hi
+  obtain ⟨ha, hd⟩ := hp hi
+  cases hc : carries s r
+  · rw [Pair.insert_skip cfg s r p]
+    exact ⟨ha.insert_skip r hc, hd.insert_skip r hc⟩
+  · obtain ⟨e1, e2⟩ := Pair.insert_lists cfg s s r p hi hg.resort
+    rw [e1, e2]
+    exact ⟨ha.insert_carrier r hfresh hc, hd.insert_carrier r hfresh hc⟩
+
 theorem PairOk.insert {cfg : Cfg} {s : Slot} (hg : SlotGood cfg s) {store : List Rec} {p : Pair}
     (hp : PairOk s store p) (r : Rec) (hfresh : ∀ x ∈ store, x.key ≠ r.key) :
     PairOk s (store ++ [r]) (p.insert cfg s r) := by
-  intro hi
-  rw [Pair.insert_init cfg s s r p hg.resort] at hi
-  obtain ⟨ha, hd⟩ := hp hi
-  cases hc : carries s r
-  · rw [Pair.insert_skip cfg s r p (by rw [hg.guard, hc])]
-    exact ⟨ha.insert_skip r hc, hd.insert_skip r hc⟩
-  · obtain ⟨e1, e2⟩ := Pair.insert_lists cfg s s r p hi (by rw [hg.guard, hc]) hg.resort
-    rw [e1, e2]
-    exact ⟨ha.insert_carrier r hfresh hc, hd.insert_carrier r hfresh hc⟩
+  unfold Pair.insert
+  rw [hg.guard]
+  exact hp.insertG hg r hfresh
 
 theorem PairOk.erase {s : Slot} {store : List Rec} {p : Pair} (hp : PairOk s store p)
     (hs : KeysNodup store) (k : String) : PairOk s (eraseKey k store) (p.erase k) := by
@@ -834,6 +844,10 @@ theorem PairOk.update {cfg : Cfg} {s : Slot} (hg : SlotGood cfg s) {store : List
   have hrefile : PairOk s (eraseKey o.key store ++ [mergeRec cfg (some o) rq])
       ((p.erase o.key).insert cfg s (mergeRec cfg (some o) rq)) :=
     (hp.erase hs o.key).insert hg (mergeRec cfg (some o) rq) hfresh
+  have hrefile' : PairOk s (eraseKey o.key store ++ [mergeRec cfg (some o) rq])
+      ((p.erase o.key).insertG cfg s (mergeRec cfg (some o) rq) (refileGuard cfg s (mergeRec cfg (some o) rq))) := by
+    rw [hg.refile]
+    exact (hp.erase hs o.key).insertG hg (mergeRec cfg (some o) rq) hfresh
   unfold Pair.update
   cases hi : p.init
   · intro h; simp only [Bool.not_false, if_true] at h; rw [hi] at h; cases h
@@ -870,7 +884,7 @@ theorem PairOk.update {cfg : Cfg} {s : Slot} (hg : SlotGood cfg s) {store : List
         exact ⟨ha.alias hs o _ ho hk hattr, hd.alias hs o _ ho hk hattr⟩
       · simp only [if_true]
         rw [hk]
-        exact hrefile
+        exact hrefile'
 
 theorem Pair.build_init (cfg : Cfg) (s : Slot) (store : List Rec) (p : Pair) : (p.build cfg s store).init = true := by
   unfold Pair.build
@@ -967,6 +981,357 @@ theorem slotInv_foldDel {s : Slot} (ks : List String) : ∀ (st : St), SlotInv s
   | nil => intro st h; exact h
   | cons k rest ih => intro st h; exact ih _ (slotInv_stepDel st k h)
 
+/-! ### J'. PatchTreasures / PatchExpired / ShiftMatching -/
+
+theorem slotInv_stepPatch {cfg : Cfg} {s : Slot} (hg : SlotGood cfg s) (st : St) (k : String) (m : ExpMeta)
+    (h : SlotInv s st) : SlotInv s (stepPatch cfg st k m) := by
+  unfold stepPatch
+  split
+  · exact h
+  · split
+    · exact slotInv_stepSet hg st _ h
+    · exact h
+
+theorem slotInv_foldPatch {cfg : Cfg} {s : Slot} (hg : SlotGood cfg s) (m : ExpMeta) (ks : List String) :
+    ∀ (st : St), SlotInv s st → SlotInv s (ks.foldl (fun s k => stepPatch cfg s k m) st) := by
+  induction ks with
+  | nil => intro st h; exact h
+  | cons k rest ih => intro st h; exact ih _ (slotInv_stepPatch hg st k m h)
+
+/-- The expiration slice while `PatchExpired` works through its selection `K`: the selected records
+    may be missing, everything else is as it should be (order aside: the final step sorts). -/
+structure ListSub (K : List String) (store l : List Rec) : Prop where
+  nodup : KeysNodup l
+  sub : ∀ r, r ∈ l → r ∈ store ∧ carries .expire r = true
+  sup : ∀ r, r ∈ store → carries .expire r = true → r.key ∉ K → r ∈ l
+
+theorem mem_dropKeys (ks : List String) (l : List Rec) (r : Rec) : r ∈ dropKeys ks l ↔ (r ∈ l ∧ r.key ∉ ks) := by
+  unfold dropKeys
+  simp [List.mem_filter]
+
+theorem keysNodup_filter (f : Rec → Bool) (l : List Rec) (h : KeysNodup l) : KeysNodup (l.filter f) :=
+  List.Nodup.sublist (List.Sublist.map _ List.filter_sublist) h
+
+theorem ListOk.hide {asc : Bool} {store l : List Rec} (h : ListOk .expire asc store l) (K : List String) :
+    ListSub K store (dropKeys K l) := by
+  refine ⟨keysNodup_filter _ l h.nodup, ?_, ?_⟩
+  · intro r hr
+    exact (h.mem r).mp ((mem_dropKeys K l r).mp hr).1
+  · intro r hr hc hk
+    exact (mem_dropKeys K l r).mpr ⟨(h.mem r).mpr ⟨hr, hc⟩, hk⟩
+
+theorem ListSub.erase {K : List String} {store l : List Rec} (h : ListSub K store l)
+    (hs : KeysNodup store) (k : String) : ListSub K (eraseKey k store) (eraseKey k l) := by
+  refine ⟨keysNodup_eraseKey k l h.nodup, ?_, ?_⟩
+  · intro r hr
+    obtain ⟨h1, h2⟩ := (mem_eraseKey k l h.nodup r).mp hr
+    exact ⟨(mem_eraseKey k store hs r).mpr ⟨(h.sub r h1).1, h2⟩, (h.sub r h1).2⟩
+  · intro r hr hc hk
+    obtain ⟨h1, h2⟩ := (mem_eraseKey k store hs r).mp hr
+    exact (mem_eraseKey k l h.nodup r).mpr ⟨h.sup r h1 hc hk, h2⟩
+
+theorem ListSub.insert_skip {K : List String} {store l : List Rec} (h : ListSub K store l)
+    (r : Rec) (hk : r.key ∈ K) : ListSub K (store ++ [r]) l := by
+  refine ⟨h.nodup, ?_, ?_⟩
+  · intro x hx
+    exact ⟨List.mem_append.mpr (Or.inl (h.sub x hx).1), (h.sub x hx).2⟩
+  · intro x hx hc hxk
+    rcases List.mem_append.mp hx with hx | hx
+    · exact h.sup x hx hc hxk
+    · simp only [List.mem_singleton] at hx
+      rw [hx] at hxk
+      exact absurd hk hxk
+
+theorem ListSub.insert_carrier {K : List String} {store l : List Rec} (h : ListSub K store l) (asc : Bool)
+    (r : Rec) (hfresh : ∀ x ∈ store, x.key ≠ r.key) (hc : carries .expire r = true) :
+    ListSub K (store ++ [r]) (sortBy .expire asc (addTo l r)) := by
+  have hl : addTo l r = l ++ [r] := addTo_fresh l r (fun x hx => hfresh x (h.sub x hx).1)
+  have hcar : ∀ x ∈ l ++ [r], carries .expire x = true := by
+    intro x hx
+    rcases List.mem_append.mp hx with hx | hx
+    · exact (h.sub x hx).2
+    · simp only [List.mem_singleton] at hx; rw [hx]; exact hc
+  obtain ⟨hp, _⟩ := sortBy_carriers .expire asc (l ++ [r]) hcar
+  rw [hl]
+  refine ⟨?_, ?_, ?_⟩
+  · have : ((l ++ [r]).map (·.key)).Nodup := by
+      rw [List.map_append, List.nodup_append]
+      refine ⟨h.nodup, by simp, ?_⟩
+      intro a ha b hb
+      simp only [List.map_cons, List.map_nil, List.mem_singleton] at hb
+      obtain ⟨x, hx, rfl⟩ := List.mem_map.mp ha
+      rw [hb]
+      exact hfresh x (h.sub x hx).1
+    exact (hp.map (·.key)).nodup_iff.mpr this
+  · intro x hx
+    rw [hp.mem_iff] at hx
+    rcases List.mem_append.mp hx with hx | hx
+    · exact ⟨List.mem_append.mpr (Or.inl (h.sub x hx).1), (h.sub x hx).2⟩
+    · simp only [List.mem_singleton] at hx
+      rw [hx]
+      exact ⟨List.mem_append.mpr (Or.inr (by simp)), hc⟩
+  · intro x hx hcx hxk
+    rw [hp.mem_iff]
+    rcases List.mem_append.mp hx with hx | hx
+    · exact List.mem_append.mpr (Or.inl (h.sup x hx hcx hxk))
+    · exact List.mem_append.mpr (Or.inr hx)
+
+theorem ListSub.alias {K : List String} {store l : List Rec} (h : ListSub K store l)
+    (hs : KeysNodup store) (o n : Rec) (ho : o ∈ store) (hk : n.key = o.key) (ha : attrEq .expire o n) :
+    ListSub K (eraseKey o.key store ++ [n]) (alias n l) := by
+  have hcar := attrEq_carries .expire o n ha
+  refine ⟨?_, ?_, ?_⟩
+  · unfold KeysNodup; rw [alias_keys]; exact h.nodup
+  · intro x hx
+    rw [mem_alias] at hx
+    rcases hx with ⟨hx, hxk⟩ | ⟨rfl, y, hy, hyk⟩
+    · have := h.sub x hx
+      exact ⟨List.mem_append.mpr (Or.inl ((mem_eraseKey _ _ hs x).mpr ⟨this.1, by rw [← hk]; exact hxk⟩)), this.2⟩
+    · have hy' := h.sub y hy
+      have : y = o := keysNodup_inj hs hy'.1 ho (hyk.trans hk)
+      rw [this] at hy'
+      exact ⟨List.mem_append.mpr (Or.inr (by simp)), by rw [← hcar]; exact hy'.2⟩
+  · intro x hx hcx hxk
+    rw [mem_alias]
+    rcases List.mem_append.mp hx with hx | hx
+    · obtain ⟨h1, h2⟩ := (mem_eraseKey _ _ hs x).mp hx
+      exact Or.inl ⟨h.sup x h1 hcx hxk, by rw [hk]; exact h2⟩
+    · simp only [List.mem_singleton] at hx
+      refine Or.inr ⟨hx, o, ?_, hk.symm⟩
+      have hko : o.key ∉ K := by rw [← hk, ← hx]; exact hxk
+      exact h.sup o ho (by rw [hcar, ← hx]; exact hcx) hko
+
+def PairSub (K : List String) (store : List Rec) (p : Pair) : Prop :=
+  p.init = true → ListSub K store p.asc ∧ ListSub K store p.desc
+
+theorem PairSub.erase {K : List String} {store : List Rec} {p : Pair} (hp : PairSub K store p)
+    (hs : KeysNodup store) (k : String) : PairSub K (eraseKey k store) (p.erase k) := by
+  intro hi
+  rw [Pair.erase_init] at hi
+  obtain ⟨ha, hd⟩ := hp hi
+  obtain ⟨e1, e2⟩ := Pair.erase_lists k p hi
+  rw [e1, e2]
+  exact ⟨ha.erase hs k, hd.erase hs k⟩
+
+theorem PairSub.insertG {cfg : Cfg} (hg : SlotGood cfg .expire) {K : List String} {store : List Rec} {p : Pair}
+    (hp : PairSub K store p) (r : Rec) (hfresh : ∀ x ∈ store, x.key ≠ r.key) (hk : r.key ∈ K) :
+    PairSub K (store ++ [r]) (p.insertG cfg .expire r (carries .expire r)) := by
+  intro hi
+  rw [Pair.insert_init cfg .expire .expire r _ p hg.resort] at hi
+  obtain ⟨ha, hd⟩ := hp hi
+  cases hc : carries .expire r
+  · rw [Pair.insert_skip cfg .expire r p]
+    exact ⟨ha.insert_skip r hk, hd.insert_skip r hk⟩
+  · obtain ⟨e1, e2⟩ := Pair.insert_lists cfg .expire .expire r p hi hg.resort
+    rw [e1, e2]
+    exact ⟨ha.insert_carrier true r hfresh hc, hd.insert_carrier false r hfresh hc⟩
+
+theorem PairSub.update {cfg : Cfg} (hg : SlotGood cfg .expire) {K : List String} {store : List Rec} {p : Pair}
+    (hp : PairSub K store p) (hs : KeysNodup store) (o : Rec) (rq : SetReq) (ho : o ∈ store) (hK : o.key ∈ K) :
+    PairSub K (eraseKey o.key store ++ [mergeRec cfg (some o) rq])
+      (p.update cfg .expire o (mergeRec cfg (some o) rq)) := by
+  have hk : (mergeRec cfg (some o) rq).key = o.key := rfl
+  have hfresh : ∀ x ∈ eraseKey o.key store, x.key ≠ (mergeRec cfg (some o) rq).key := by
+    intro x hx
+    rw [hk]
+    exact ((mem_eraseKey _ _ hs x).mp hx).2
+  have hins : ∀ g, g = carries .expire (mergeRec cfg (some o) rq) →
+      PairSub K (eraseKey o.key store ++ [mergeRec cfg (some o) rq])
+        ((p.erase o.key).insertG cfg .expire (mergeRec cfg (some o) rq) g) := by
+    intro g hgc
+    rw [hgc]
+    exact (hp.erase hs o.key).insertG hg (mergeRec cfg (some o) rq) hfresh (by rw [hk]; exact hK)
+  have hskip : PairSub K (eraseKey o.key store ++ [mergeRec cfg (some o) rq]) (p.erase o.key) := by
+    intro hi
+    obtain ⟨ha, hd⟩ := (hp.erase hs o.key) hi
+    exact ⟨ha.insert_skip _ (by rw [hk]; exact hK), hd.insert_skip _ (by rw [hk]; exact hK)⟩
+  unfold Pair.update
+  cases hi : p.init
+  · intro h; simp only [Bool.not_false, if_true] at h; rw [hi] at h; cases h
+  · simp only [Bool.not_true, Bool.false_eq_true, if_false]
+    by_cases htc : (cfg.typeChangeDetected && o.ct != (mergeRec cfg (some o) rq).ct) = true
+    · simp only [htc, if_true]
+      rw [hk]
+      split
+      · unfold Pair.insert
+        exact hins _ (hg.guard _)
+      · exact hskip
+    · simp only [htc, Bool.false_eq_true, if_false]
+      cases hr : refreshes cfg .expire (mergeRec cfg (some o) rq)
+      · have hattr : attrEq .expire o (mergeRec cfg (some o) rq) := by
+          rcases hg.stable o rq with h | h
+          · rw [hr] at h; cases h
+          · exact h
+        simp only [Bool.false_eq_true, if_false]
+        intro _
+        obtain ⟨ha, hd⟩ := hp hi
+        exact ⟨ha.alias hs o _ ho hk hattr, hd.alias hs o _ ho hk hattr⟩
+      · simp only [if_true]
+        rw [hk]
+        exact hins _ (hg.refile _)
+
+def StSub (K : List String) (st : St) : Prop := KeysNodup st.store ∧ PairSub K st.store (st.pairs .expire)
+
+theorem findKey_of_mem {l : List Rec} (h : KeysNodup l) {r : Rec} (hr : r ∈ l) : findKey r.key l = some r := by
+  cases hf : findKey r.key l with
+  | none => exact absurd rfl (findKey_none hf r hr)
+  | some r' =>
+    obtain ⟨h1, h2⟩ := findKey_some hf
+    rw [keysNodup_inj h h1 hr h2]
+
+theorem stSub_stepPatch {cfg : Cfg} (hg : SlotGood cfg .expire) {K : List String} (st : St) (k : String) (m : ExpMeta)
+    (hk : k ∈ K) (h : StSub K st) : StSub K (stepPatch cfg st k m) := by
+  obtain ⟨hs, hp⟩ := h
+  unfold stepPatch
+  cases hf : findKey k st.store with
+  | none => exact ⟨hs, hp⟩
+  | some o =>
+    obtain ⟨ho, hok⟩ := findKey_some hf
+    simp only []
+    split
+    · have hfo : findKey (patchReq o m).key st.store = some o := by
+        show findKey o.key st.store = some o
+        exact findKey_of_mem hs ho
+      simp only [stepSet, hfo]
+      refine ⟨?_, hp.update hg hs o _ ho (by rw [hok]; exact hk)⟩
+      apply keysNodup_append_fresh (keysNodup_eraseKey _ _ hs)
+      intro x hx
+      exact ((mem_eraseKey _ _ hs x).mp hx).2
+    · exact ⟨hs, hp⟩
+
+theorem stSub_foldPatch {cfg : Cfg} (hg : SlotGood cfg .expire) {K : List String} (m : ExpMeta) (ks : List String) :
+    (∀ k ∈ ks, k ∈ K) → ∀ (st : St), StSub K st → StSub K (ks.foldl (fun s k => stepPatch cfg s k m) st) := by
+  induction ks with
+  | nil => intro _ st h; exact h
+  | cons k rest ih =>
+    intro hk st h
+    exact ih (fun x hx => hk x (by simp [hx])) _ (stSub_stepPatch hg st k m (hk k (by simp)) h)
+
+theorem less_expire_eq (asc : Bool) : less .expire asc = lessPure .expire asc := rfl
+
+/-- `ReindexExpiration` of the whole selection restores the ascending slice -/
+theorem ListSub.reindex_asc {K : List String} {store l : List Rec} (h : ListSub K store l) (hs : KeysNodup store) :
+    ListOk .expire true store
+      (isort (less .expire true) (dropKeys K l ++ store.filter (fun r => K.contains r.key && r.expire != 0))) := by
+  have hp := isort_perm (less .expire true) (dropKeys K l ++ store.filter (fun r => K.contains r.key && r.expire != 0))
+  refine ⟨?_, ?_, ?_⟩
+  · refine (hp.map (·.key)).nodup_iff.mpr ?_
+    rw [List.map_append, List.nodup_append]
+    refine ⟨keysNodup_filter _ l h.nodup, keysNodup_filter _ store hs, ?_⟩
+    intro a ha b hb hab
+    obtain ⟨x, hx, rfl⟩ := List.mem_map.mp ha
+    obtain ⟨y, hy, rfl⟩ := List.mem_map.mp hb
+    have h1 := ((mem_dropKeys K l x).mp hx).2
+    have h2 := (List.mem_filter.mp hy).2
+    simp only [Bool.and_eq_true, List.contains_iff_mem] at h2
+    exact h1 (by rw [hab]; exact h2.1)
+  · intro r
+    rw [hp.mem_iff, List.mem_append, mem_dropKeys, List.mem_filter]
+    simp only [Bool.and_eq_true, List.contains_iff_mem, bne_iff_ne, ne_eq, carries]
+    constructor
+    · rintro (⟨hr, _⟩ | ⟨hr, _, he⟩)
+      · have := h.sub r hr
+        exact ⟨this.1, by simpa [carries] using this.2⟩
+      · exact ⟨hr, he⟩
+    · rintro ⟨hr, he⟩
+      by_cases hk : r.key ∈ K
+      · exact Or.inr ⟨hr, hk, he⟩
+      · exact Or.inl ⟨h.sup r hr (by simpa [carries] using he) hk, hk⟩
+  · rw [less_expire_eq]
+    exact isort_sorted _ (lessPure_asym .expire true) (lessPure_trans .expire true) _
+
+/-- …and `Add` of every selected record that still has an expiry, then the sort, the descending one -/
+theorem ListSub.reindex_desc {K : List String} {store l : List Rec} (h : ListSub K store l) (hs : KeysNodup store) :
+    ListOk .expire false store
+      (isort (less .expire false) (addAll l (store.filter (fun r => K.contains r.key && r.expire != 0)))) := by
+  have hp := isort_perm (less .expire false) (addAll l (store.filter (fun r => K.contains r.key && r.expire != 0)))
+  unfold addAll at hp ⊢
+  refine ⟨?_, ?_, ?_⟩
+  · refine (hp.map (·.key)).nodup_iff.mpr ?_
+    rw [List.map_append, List.nodup_append]
+    refine ⟨h.nodup, keysNodup_filter _ _ (keysNodup_filter _ store hs), ?_⟩
+    intro a ha b hb hab
+    obtain ⟨x, hx, rfl⟩ := List.mem_map.mp ha
+    obtain ⟨y, hy, rfl⟩ := List.mem_map.mp hb
+    have h2 := (List.mem_filter.mp hy).2
+    simp only [Bool.not_eq_true', List.any_eq_false, beq_iff_eq] at h2
+    exact h2 x hx hab
+  · intro r
+    rw [hp.mem_iff, List.mem_append, List.mem_filter, List.mem_filter]
+    simp only [Bool.and_eq_true, List.contains_iff_mem, bne_iff_ne, ne_eq, carries]
+    constructor
+    · rintro (hr | ⟨⟨hr, _, he⟩, _⟩)
+      · have := h.sub r hr
+        exact ⟨this.1, by simpa [carries] using this.2⟩
+      · exact ⟨hr, he⟩
+    · rintro ⟨hr, he⟩
+      by_cases hk : r.key ∈ K
+      · by_cases hany : l.any (fun x => x.key == r.key) = true
+        · obtain ⟨x, hx, hxk⟩ := List.any_eq_true.mp hany
+          have : x = r := keysNodup_inj hs (h.sub x hx).1 hr (by simpa using hxk)
+          rw [this] at hx
+          exact Or.inl hx
+        · exact Or.inr ⟨⟨hr, hk, he⟩, by simpa using hany⟩
+      · exact Or.inl (h.sup r hr (by simpa [carries] using he) hk)
+  · rw [less_expire_eq]
+    exact isort_sorted _ (lessPure_asym .expire false) (lessPure_trans .expire false) _
+
+theorem slotInv_stepPatchExpired {cfg : Cfg} {s : Slot} (hg : SlotGood cfg s) (st : St) (m : ExpMeta)
+    (h : SlotInv s st) : SlotInv s (stepPatchExpired cfg st m) := by
+  unfold stepPatchExpired
+  split
+  · exact h
+  · have h1 : SlotInv s (stepBuild cfg st expireAll) := slotInv_stepBuild hg st expireAll h
+    by_cases hse : s = .expire
+    · subst hse
+      -- the hidden pair
+      generalize hK : (shiftList cfg st).map (·.key) = K
+      have hsub2 : StSub K { (stepBuild cfg st expireAll) with
+          pairs := setPair (stepBuild cfg st expireAll).pairs .expire (hideKeys K ((stepBuild cfg st expireAll).pairs .expire)) } := by
+        refine ⟨h1.1, ?_⟩
+        simp only [setPair, if_true]
+        intro hi
+        obtain ⟨ha, hd⟩ := h1.2 hi
+        exact ⟨ha.hide K, hd.hide K⟩
+      have hsub3 := stSub_foldPatch hg m K (fun _ hk => hk) _ hsub2
+      simp only []
+      generalize (K.foldl (fun s k => stepPatch cfg s k m) _) = st3 at hsub3 ⊢
+      split
+      · refine ⟨hsub3.1, ?_⟩
+        intro hi
+        rename_i hni
+        rw [hi] at hni; simp at hni
+      · rename_i hi3
+        have hi3' : (st3.pairs .expire).init = true := by simpa using hi3
+        obtain ⟨ha, hd⟩ := hsub3.2 hi3'
+        have hre : K.filter (fun k => cfg.patchExpiredReindexesAll || !patchable st.store k) = K := by
+          rw [List.filter_eq_self]
+          intro a _
+          simp [hg.reindex rfl]
+        refine ⟨hsub3.1, ?_⟩
+        simp only [setPair, if_true, hre, reindexPair]
+        intro _
+        exact ⟨ha.reindex_asc hsub3.1, hd.reindex_desc hsub3.1⟩
+    · -- another slot: only the saves matter
+      have h2 : SlotInv s { (stepBuild cfg st expireAll) with
+          pairs := setPair (stepBuild cfg st expireAll).pairs .expire
+            (hideKeys ((shiftList cfg st).map (·.key)) ((stepBuild cfg st expireAll).pairs .expire)) } := by
+        refine ⟨h1.1, ?_⟩
+        simp only [setPair, hse, if_false]
+        exact h1.2
+      have h3 := slotInv_foldPatch hg m ((shiftList cfg st).map (·.key)) _ h2
+      simp only []
+      generalize (((shiftList cfg st).map (·.key)).foldl (fun s k => stepPatch cfg s k m) _) = st3 at h3 ⊢
+      split
+      · exact h3
+      · refine ⟨h3.1, ?_⟩
+        simp only [setPair, hse, if_false]
+        exact h3.2
+
+theorem slotInv_stepShiftMatch {cfg : Cfg} {s : Slot} (hg : SlotGood cfg s) (st : St) (q : Query)
+    (h : SlotInv s st) : SlotInv s (stepShiftMatch cfg st q) :=
+  slotInv_foldDel _ _ (slotInv_stepBuild hg st q h)
+
 theorem slotInv_step {cfg : Cfg} {s : Slot} (hg : SlotGood cfg s) (st : St) (op : Op)
     (h : SlotInv s st) : SlotInv s (step cfg st op) := by
   cases op with
@@ -991,6 +1356,9 @@ theorem slotInv_step {cfg : Cfg} {s : Slot} (hg : SlotGood cfg s) (st : St) (op 
   | shiftExpired => exact slotInv_foldDel _ _ (slotInv_stepBuild hg st _ h)
   | del k => exact slotInv_stepDel st k h
   | read q => exact slotInv_stepBuild hg st q h
+  | patch k m => exact slotInv_stepPatch hg st k m h
+  | patchExpired m => exact slotInv_stepPatchExpired hg st m h
+  | shiftMatch q => exact slotInv_stepShiftMatch hg st q h
 
 theorem slotInv_run {cfg : Cfg} {s : Slot} (hg : SlotGood cfg s) (h : List Op) : SlotInv s (run cfg h) := by
   unfold run
